@@ -18,10 +18,13 @@ use std::io::{BufWriter, Write};
 use std::path::{Path, PathBuf};
 use std::ptr::NonNull;
 use std::sync::{Arc, Mutex};
-use zipora::memory::cache_layout::CacheOptimizedAllocator;
+use zipora::memory::bump::BumpVec;
+use zipora::memory::cache::CacheAlignedVec;
+use zipora::memory::cache_layout::{AccessPattern, CacheLayoutConfig, CacheOptimizedAllocator};
 use zipora::memory::fixed_capacity_pool::{FixedCapacityMemoryPool, FixedCapacityPoolConfig};
 use zipora::memory::{
-    AdaptiveFiveLevelPool, BumpAllocator, BumpArena, ConcurrencyLevel, FiveLevelPoolConfig, FixedCapacityPool, HugePageAllocator,
+    AdaptiveFiveLevelPool, BumpAllocator, BumpArena, ConcurrencyLevel, FiveLevelPoolConfig, FiveLevelPoolHandle, FixedCapacityPool, HugePage,
+    HugePageAllocator, LockFreeAllocation,
     LockFreeMemoryPool, LockFreePool, LockFreePoolConfig, MemOffset, MemoryMappedAllocator, MemoryPool, MutexBasedPool,
     NoLockingPool, PoolConfig, PooledBuffer, PooledVec, SecureMemoryPool, SecurePoolConfig, ThreadLocalMemoryPool, ThreadLocalPool,
     ThreadLocalPoolConfig, TieredConfig, TieredMemoryAllocator,
@@ -138,6 +141,10 @@ trait Pool {
     fn has_free(&self) -> bool {
         true
     }
+    /// bulk entry point (allocate_bulk_*): None = the pool has none; Some(None) = refused
+    fn alloc_bulk(&mut self, _reqs: &[usize]) -> Option<Option<Vec<Blk>>> {
+        None
+    }
     /// free the most recently freed block a second time (pools that take raw pointers); Some(accepted)
     fn free_again(&mut self) -> Option<bool> {
         None
@@ -149,6 +156,10 @@ trait Pool {
     /// capacity in bytes the pool states (None: grows on demand)
     fn cap(&self) -> Option<u64> {
         None
+    }
+    /// the pool owns ONE arena of cap() bytes out of which every block is carved
+    fn arena(&self) -> bool {
+        false
     }
     /// the pool's own size-class table: input generation only
     fn classes(&self) -> Vec<usize>;
@@ -222,6 +233,15 @@ struct Secure {
     excl: Excl,
     n: u64,
 }
+impl Secure {
+    fn wrap(&self, mut g: zipora::memory::SecurePooledPtr) -> Blk {
+        // the guard's own accessors: as_ptr / as_non_null / as_mut_slice name the same memory
+        let p = if self.n % 2 == 0 { g.as_ptr() } else { g.as_non_null().map_or(std::ptr::null_mut(), |q| q.as_ptr()) };
+        let q = g.as_mut_slice().as_mut_ptr();
+        let len = g.size();
+        blk(p as u64, len, self.align, q, Box::new(g))
+    }
+}
 impl Pool for Secure {
     fn sized(&self) -> bool {
         false
@@ -229,8 +249,11 @@ impl Pool for Secure {
     fn alloc(&mut self, _req: usize, _align: usize) -> Option<Blk> {
         self.n += 1;
         let g = if self.n % 3 == 0 { self.pool.allocate_with_hint(true) } else { self.pool.allocate() }.ok()?;
-        let p = g.as_ptr();
-        Some(blk(p as u64, g.size(), self.align, p, Box::new(g)))
+        Some(self.wrap(g))
+    }
+    fn alloc_bulk(&mut self, reqs: &[usize]) -> Option<Option<Vec<Blk>>> {
+        let sizes = vec![self.chunk; reqs.len()];
+        Some(self.pool.allocate_bulk_with_prefetch(&sizes).ok().map(|v| v.into_iter().map(|g| self.wrap(g)).collect()))
     }
     fn free(&mut self, b: Blk) -> Option<bool> {
         // the guard's Drop swallows the pool's verdict; the pool's own counters are the observable result
@@ -254,7 +277,8 @@ impl Pool for Secure {
     fn maintenance(&mut self, k: u64, nlive: usize) -> Option<(&'static str, bool)> {
         match k % 3 {
             0 => {
-                let _ = self.pool.stats();
+                let _ = (self.pool.stats(), self.pool.config().chunk_size, zipora::memory::get_global_secure_pool_stats(), zipora::memory::size_to_class(self.chunk));
+                let _ = self.pool.verify_zeroed_simd(&[0u8; 96]);
                 Some(("stats", false))
             }
             1 => {
@@ -279,13 +303,17 @@ const LF_BINS: &[usize] = &[
     3328, 3584, 3840, 4096, 4608, 5120, 5632, 6144, 6656, 7168, 7680, 8192,
 ];
 struct LockFree {
-    pool: LockFreeMemoryPool,
+    pool: Arc<LockFreeMemoryPool>,
+    k: u64,
     mem_size: usize,
     excl: Excl,
     foreign: Box<[u64; 16]>,
     last: Option<(usize, usize)>,
 }
 impl Pool for LockFree {
+    fn arena(&self) -> bool {
+        true
+    }
     fn alloc(&mut self, req: usize, _align: usize) -> Option<Blk> {
         let p = self.pool.allocate(req).ok()?;
         Some(blk(p.as_ptr() as u64, req, 8, p.as_ptr(), Box::new((p.as_ptr() as usize, req))))
@@ -294,7 +322,21 @@ impl Pool for LockFree {
         let (p, size) = *b.h.downcast_ref::<(usize, usize)>()?;
         self.last = Some((p, size));
         let q = NonNull::new(p as *mut u8)?;
-        Some(if size % 16 == 0 { self.pool.deallocate_with_zero(q, size) } else { self.pool.deallocate(q, size) }.is_ok())
+        // every way of giving a block back: deallocate, deallocate_with_zero, the RAII wrapper
+        self.k += 1;
+        Some(match self.k % 3 {
+            0 => self.pool.deallocate(q, size).is_ok(),
+            1 => self.pool.deallocate_with_zero(q, size).is_ok(),
+            _ => {
+                drop(LockFreeAllocation::new(q, size, Arc::clone(&self.pool)));
+                true
+            }
+        })
+    }
+    fn alloc_bulk(&mut self, reqs: &[usize]) -> Option<Option<Vec<Blk>>> {
+        Some(self.pool.allocate_bulk_simd(reqs).ok().map(|v| {
+            v.into_iter().zip(reqs).map(|(p, &req)| blk(p.as_ptr() as u64, req, 8, p.as_ptr(), Box::new((p.as_ptr() as usize, req)))).collect()
+        }))
     }
     fn free_again(&mut self) -> Option<bool> {
         let (p, size) = self.last?;
@@ -321,7 +363,7 @@ impl Pool for LockFree {
         Some(self.pool.deallocate(p, 64).is_ok())
     }
     fn maintenance(&mut self, _k: u64, _n: usize) -> Option<(&'static str, bool)> {
-        let _ = self.pool.stats().map(|s| s.contention_ratio());
+        let _ = self.pool.stats().map(|s| (s.contention_ratio(), s.allocation_rate()));
         Some(("stats", false))
     }
 }
@@ -370,7 +412,12 @@ impl Pool for TlPool {
         }
     }
     fn maintenance(&mut self, _k: u64, _n: usize) -> Option<(&'static str, bool)> {
-        let _ = self.pool.memory_usage();
+        let _ = (self.pool.memory_usage(), self.pool.stats().map(|s| (s.hit_ratio(), s.locality_score())));
+        if _n == 0 && _k % 4 == 0 {
+            // documented as cleanup: only without outstanding blocks
+            self.pool.clear_caches();
+            return Some(("clear_caches", false));
+        }
         Some(("stats", false))
     }
 }
@@ -384,6 +431,9 @@ struct FixedCap {
     cheap: bool,
 }
 impl Pool for FixedCap {
+    fn arena(&self) -> bool {
+        true
+    }
     fn stride(&self) -> usize {
         if self.maxb > 8192 {
             16
@@ -413,7 +463,7 @@ impl Pool for FixedCap {
         vec![self.align]
     }
     fn maintenance(&mut self, _k: u64, _n: usize) -> Option<(&'static str, bool)> {
-        let _ = (self.pool.available_capacity(), self.pool.has_capacity(1));
+        let _ = (self.pool.available_capacity(), self.pool.has_capacity(1), self.pool.stats().map(|s| (s.success_rate(), s.utilization_percent())));
         Some(("stats", false))
     }
     fn cheap(&self) -> bool {
@@ -479,7 +529,7 @@ impl Pool for MemPool {
     }
     fn maintenance(&mut self, k: u64, _n: usize) -> Option<(&'static str, bool)> {
         if k % 2 == 0 {
-            let _ = self.pool.stats();
+            let _ = (self.pool.stats(), self.pool.config().chunk_size, zipora::memory::pool::get_global_pool_stats(), zipora::memory::pool::init_global_pools(self.chunk, 1 << 20));
             Some(("stats", false))
         } else {
             let _ = self.pool.clear(); // drops cached free chunks only
@@ -631,13 +681,14 @@ impl Pool for PBuf {
 struct Tiered {
     a: TieredMemoryAllocator,
     cfg: TieredConfig,
+    global: bool, // the process-wide allocator behind tiered_allocate / tiered_deallocate
 }
 impl Pool for Tiered {
     fn stride(&self) -> usize {
         4
     }
     fn alloc(&mut self, req: usize, _align: usize) -> Option<Blk> {
-        let mut t = self.a.allocate(req).ok()?;
+        let mut t = if self.global { zipora::memory::tiered_allocate(req) } else { self.a.allocate(req) }.ok()?;
         let p = t.as_mut_slice().as_mut_ptr();
         let len = t.size();
         // alignment the tier's pool is configured with (small pool 8, medium pools 16); none stated beyond
@@ -652,10 +703,11 @@ impl Pool for Tiered {
     }
     fn free(&mut self, b: Blk) -> Option<bool> {
         let t = b.h.downcast::<zipora::memory::TieredAllocation>().ok()?;
-        Some(self.a.deallocate(*t).is_ok())
+        Some(if self.global { zipora::memory::tiered_deallocate(*t) } else { self.a.deallocate(*t) }.is_ok())
     }
     fn classes(&self) -> Vec<usize> {
-        vec![1024, 2048, 4096, 8192, 16384]
+        // pool classes, the mmap threshold (16 KiB) and the hugepage threshold (2 MiB)
+        vec![1024, 2048, 4096, 8192, 16384, 2 << 20]
     }
     fn max(&self) -> usize {
         16384
@@ -665,7 +717,7 @@ impl Pool for Tiered {
     }
     fn maintenance(&mut self, k: u64, _n: usize) -> Option<(&'static str, bool)> {
         if k % 2 == 0 {
-            let _ = self.a.stats();
+            let _ = (self.a.stats(), self.a.get_allocation_pattern().ok(), zipora::memory::get_tiered_stats());
             Some(("stats", false))
         } else {
             let _ = self.a.optimize_for_pattern();
@@ -678,10 +730,20 @@ impl Pool for Tiered {
 struct Bump {
     a: Box<BumpAllocator>,
     slice: bool,
+    vec: bool, // blocks are the buffers of BumpVec<u8>::new_in, written through push
 }
 impl Pool for Bump {
+    fn arena(&self) -> bool {
+        true
+    }
     fn alloc(&mut self, req: usize, align: usize) -> Option<Blk> {
-        if self.slice {
+        if self.vec {
+            // the vector borrows the boxed allocator, which outlives every block of the run
+            let a: &'static BumpAllocator = unsafe { &*(&*self.a as *const BumpAllocator) };
+            let v = BumpVec::<u8>::new_in(a, req).ok()?;
+            let p = v.as_slice().as_ptr() as u64;
+            Some(blk(p, v.capacity(), 1, std::ptr::null_mut(), Box::new(v)))
+        } else if self.slice {
             let n = (req + 7) / 8;
             let p = self.a.alloc_slice::<u64>(n).ok()?;
             let q = p.as_ptr() as *mut u8;
@@ -701,7 +763,7 @@ impl Pool for Bump {
         self.a.capacity()
     }
     fn aligns(&self) -> Vec<usize> {
-        if self.slice {
+        if self.slice || self.vec {
             vec![8]
         } else {
             vec![1, 2, 4, 8, 16, 32, 64]
@@ -713,6 +775,23 @@ impl Pool for Bump {
     fn reset_all(&mut self) -> bool {
         unsafe { self.a.reset() };
         true
+    }
+    fn fill(&mut self, b: &mut Blk, id: u32) {
+        match b.h.downcast_mut::<BumpVec<'static, u8>>() {
+            Some(v) => {
+                let mut j = v.len();
+                while v.push(pat(id, j)).is_ok() {
+                    j += 1;
+                }
+            }
+            None => raw_fill(b, id),
+        }
+    }
+    fn check(&mut self, b: &Blk, id: u32) -> Option<bool> {
+        match b.h.downcast_ref::<BumpVec<'static, u8>>() {
+            Some(v) => Some(v.len() == b.len as usize && v.as_slice().iter().enumerate().all(|(j, &x)| x == pat(id, j))),
+            None => raw_check(b, id),
+        }
     }
     fn maintenance(&mut self, _k: u64, _n: usize) -> Option<(&'static str, bool)> {
         let _ = (self.a.allocated_bytes(), self.a.remaining_bytes(), self.a.can_allocate(8, 8));
@@ -729,6 +808,9 @@ impl Drop for Arena {
     }
 }
 impl Pool for Arena {
+    fn arena(&self) -> bool {
+        true
+    }
     fn alloc(&mut self, req: usize, align: usize) -> Option<Blk> {
         let p = match self.scopes.last() {
             Some(s) => s.alloc_bytes(req, align).ok()?,
@@ -765,7 +847,7 @@ impl Pool for Arena {
         }
     }
     fn maintenance(&mut self, _k: u64, _n: usize) -> Option<(&'static str, bool)> {
-        let _ = self.a.stats().utilization();
+        let _ = (self.a.stats().utilization(), self.a.stats().is_nearly_full());
         Some(("stats", false))
     }
 }
@@ -778,6 +860,7 @@ enum FL {
     TLocal(ThreadLocalPool),
     Fixed(FixedCapacityPool),
     Adaptive(AdaptiveFiveLevelPool),
+    Handle(AdaptiveFiveLevelPool, FiveLevelPoolHandle), // get_handle(): the cloneable twin of alloc / free
 }
 struct Five {
     p: FL,
@@ -797,12 +880,13 @@ impl Five {
             FL::TLocal(p) => p.stats().total_capacity,
             FL::Fixed(p) => p.stats().total_capacity,
             FL::Adaptive(p) => p.stats().total_capacity,
+            FL::Handle(_, h) => h.stats().total_capacity,
         }
     }
     fn is_tlocal(&self) -> bool {
         match &self.p {
             FL::TLocal(_) => true,
-            FL::Adaptive(p) => p.current_level() == ConcurrencyLevel::ThreadLocal,
+            FL::Adaptive(p) | FL::Handle(p, _) => p.current_level() == ConcurrencyLevel::ThreadLocal,
             _ => false,
         }
     }
@@ -823,6 +907,7 @@ impl Pool for Five {
             FL::TLocal(p) => p.alloc(req),
             FL::Fixed(p) => p.alloc(req),
             FL::Adaptive(p) => p.alloc(req),
+            FL::Handle(_, h) => h.alloc(req),
         }
         .ok()?;
         let mut b = blk(off_u32(o) as u64, req, self.cfg.alignment, std::ptr::null_mut(), Box::new((o, req)));
@@ -839,6 +924,7 @@ impl Pool for Five {
                 FL::TLocal(p) => p.free(o, size),
                 FL::Fixed(p) => p.free(o, size),
                 FL::Adaptive(p) => p.free(o, size),
+                FL::Handle(_, h) => h.free(o, size),
             }
             .is_ok(),
         )
@@ -879,6 +965,9 @@ impl Pool for Five {
     }
     fn maintenance(&mut self, _k: u64, _n: usize) -> Option<(&'static str, bool)> {
         let _ = self.total();
+        if let FL::NoLock(p) = &self.p {
+            let _ = (p.stats().fragmentation_ratio(), p.stats().utilization());
+        }
         if let FL::Fixed(p) = &self.p {
             let _ = (p.remaining_capacity(), p.is_at_capacity());
         }
@@ -921,7 +1010,7 @@ impl Pool for Mmap {
     }
     fn maintenance(&mut self, k: u64, _n: usize) -> Option<(&'static str, bool)> {
         if k % 2 == 0 {
-            let _ = self.a.stats();
+            let _ = (self.a.stats(), self.a.should_use_mmap(self.min));
             Some(("stats", false))
         } else {
             let _ = self.a.clear_cache(); // unmaps cached free regions only
@@ -939,9 +1028,11 @@ impl Pool for Huge {
         20
     }
     fn alloc(&mut self, req: usize, _align: usize) -> Option<Blk> {
-        let mut h = self.a.allocate(req).ok()?;
+        let _ = (self.a.should_use_hugepages(req), zipora::memory::hugepage::hugepages_available(), zipora::memory::hugepage::get_hugepage_count());
+        let mut h = if req % 2 == 0 { self.a.allocate(req) } else { HugePage::new_2mb(req) }.ok()?;
         let p = h.as_mut_slice().as_mut_ptr();
         let len = h.size();
+        let _ = h.page_size();
         Some(blk(p as u64, len, 4096, p, Box::new(h)))
     }
     fn free(&mut self, b: Blk) -> Option<bool> {
@@ -959,6 +1050,51 @@ impl Pool for Huge {
     }
     fn max_live(&self) -> usize {
         3
+    }
+}
+
+// ---- CacheAlignedVec<u8>: a cache-line aligned buffer from the NUMA helpers, written through push
+struct CacheVec;
+impl Pool for CacheVec {
+    fn alloc(&mut self, req: usize, _align: usize) -> Option<Blk> {
+        let mut v = if req % 2 == 0 { CacheAlignedVec::<u8>::with_capacity(req).ok()? } else { CacheAlignedVec::<u8>::with_numa_node(0) };
+        v.reserve(req).ok()?;
+        let _ = v.numa_node();
+        let p = v.as_slice().as_ptr() as u64;
+        if v.capacity() < req {
+            return None;
+        }
+        Some(blk(p, req, 64, std::ptr::null_mut(), Box::new(v)))
+    }
+    fn free(&mut self, b: Blk) -> Option<bool> {
+        drop(b.h);
+        Some(true)
+    }
+    fn classes(&self) -> Vec<usize> {
+        vec![64, 1024, 4096]
+    }
+    fn max(&self) -> usize {
+        65536
+    }
+    fn aligns(&self) -> Vec<usize> {
+        vec![64]
+    }
+    fn fill(&mut self, b: &mut Blk, id: u32) {
+        if let Some(v) = b.h.downcast_mut::<CacheAlignedVec<u8>>() {
+            // within the reserved capacity: the buffer must not move
+            for j in v.len()..b.len as usize {
+                if v.push(pat(id, j)).is_err() {
+                    break;
+                }
+            }
+            if let Some(x) = v.get_mut(0) {
+                *x = pat(id, 0);
+            }
+        }
+    }
+    fn check(&mut self, b: &Blk, id: u32) -> Option<bool> {
+        let v = b.h.downcast_ref::<CacheAlignedVec<u8>>()?;
+        Some(v.len() == b.len as usize && v.as_slice().as_ptr() as u64 == b.addr && v.as_slice().iter().enumerate().all(|(j, &x)| x == pat(id, j)))
     }
 }
 
@@ -987,6 +1123,17 @@ impl Pool for CacheOpt {
 }
 struct Numa;
 impl Pool for Numa {
+    fn maintenance(&mut self, k: u64, _n: usize) -> Option<(&'static str, bool)> {
+        use zipora::memory::cache::{clear_numa_pools, get_numa_stats, get_optimal_numa_node, init_numa_pools, set_current_numa_node};
+        if k % 3 == 0 {
+            // drops the chunks cached by numa_dealloc (free ones only)
+            let _ = (clear_numa_pools(), init_numa_pools());
+            Some(("clear_numa_pools", false))
+        } else {
+            let _ = (get_numa_stats(), get_optimal_numa_node(), set_current_numa_node(0));
+            Some(("stats", false))
+        }
+    }
     fn alloc(&mut self, req: usize, align: usize) -> Option<Blk> {
         let p = zipora::memory::cache::numa_alloc_aligned(req, align, 0).ok()?;
         Some(blk(p.as_ptr() as u64, req, align, p.as_ptr(), Box::new((p.as_ptr() as usize, req, align))))
@@ -1022,7 +1169,9 @@ fn subjects() -> Vec<String> {
         "fixedcap:medium_objects", "fixedcap:realtime", "fixedcap:secure", "fixedcap:tiny", "mempool:small", "mempool:medium",
         "mempool:large", "mempool:custom96_a32", "pooledvec:u8", "pooledvec:big", "pooledbuf:global", "tiered:default", "tiered:no_small",
         "tiered:no_medium", "tiered:no_mmap", "bump:4k", "bump:1m", "bump:slice", "arena:4k", "arena:64k", "mmap:default", "mmap:min4k",
-        "hugepage:2mb", "cacheopt:optimal", "numa:node0",
+        "hugepage:2mb", "cacheopt:optimal", "numa:node0", "secure:cfg_a", "secure:cfg_b", "secure:global_small", "secure:global_medium",
+        "secure:global_large", "lockfree:zero_simd", "lockfree:zero_nosimd", "lockfree:zero_small64k", "fixedcap:lazy", "tiered:global",
+        "bump:vec", "fl_handle:l2", "fl_handle:l3", "fl_handle:l4", "cachevec:u8", "secure:new40_a8",
     ]
     .iter()
     .map(|s| s.to_string())
@@ -1045,7 +1194,7 @@ fn variant_of(name: &str) -> &str {
 }
 /// subjects with per-thread caches in `static` thread-locals: every run gets a fresh thread
 fn needs_thread(name: &str) -> bool {
-    matches!(fam_of(name), "tlpool" | "fl_tlocal" | "fl_adaptive" | "tiered")
+    matches!(fam_of(name), "tlpool" | "fl_tlocal" | "fl_adaptive" | "fl_handle" | "tiered")
 }
 
 fn fl_config(var: &str) -> Option<FiveLevelPoolConfig> {
@@ -1083,6 +1232,50 @@ fn make(name: &str, excl: &Excl) -> Option<Box<dyn Pool>> {
                 "small_a64" => SecurePoolConfig::small_secure().with_alignment(64),
                 "new256_a16" => SecurePoolConfig::new(256, 4, 16),
                 "new64_a32_c1" => SecurePoolConfig::new(64, 2, 32).with_local_cache_size(1).with_zero_on_free(false),
+                "new40_a8" => SecurePoolConfig::new(40, 3, 8).with_zero_on_alloc(true), // below the SIMD threshold: scalar zeroing
+                // every flag that changes what allocate / release touch, in two opposite settings;
+                // chunk sizes that are no multiple of the SIMD widths
+                "cfg_a" => SecurePoolConfig::new(200, 4, 8)
+                    .with_zero_on_alloc(true)
+                    .with_zero_on_free(true)
+                    .with_simd_ops(true)
+                    .with_simd_threshold(16)
+                    .with_guard_pages(true)
+                    .with_cache_alignment(true)
+                    .with_cache_config(Some(CacheLayoutConfig::sequential()))
+                    .with_access_pattern(AccessPattern::Sequential)
+                    .with_hot_cold_separation(true)
+                    .with_hot_data_threshold(1)
+                    .with_huge_pages(true)
+                    .with_huge_page_threshold(64)
+                    .with_numa_awareness(true)
+                    .with_prefetch_distance(2)
+                    .with_batch_size(1)
+                    .with_local_cache_size(2),
+                "cfg_b" => SecurePoolConfig::new(1000, 4, 16)
+                    .with_zero_on_alloc(true)
+                    .with_zero_on_free(false)
+                    .with_simd_ops(false)
+                    .with_simd_threshold(4096)
+                    .with_guard_pages(false)
+                    .with_cache_alignment(false)
+                    .with_cache_config(None)
+                    .with_hot_cold_separation(false)
+                    .with_huge_pages(false)
+                    .with_numa_awareness(false)
+                    .with_prefetch_distance(0)
+                    .with_batch_size(64),
+                "global_small" | "global_medium" | "global_large" => {
+                    // the process-wide pools behind get_global_pool_for_size
+                    let size = match var {
+                        "global_small" => 1000,
+                        "global_medium" => 1025,
+                        _ => 64 * 1024 + 1,
+                    };
+                    let pool = Arc::clone(zipora::memory::get_global_pool_for_size(size));
+                    let (chunk, align) = (pool.config().chunk_size, pool.config().alignment);
+                    return Some(Box::new(Secure { pool, chunk, align, excl, n: 0 }));
+                }
                 _ => return None,
             };
             let (chunk, align) = (cfg.chunk_size, cfg.alignment);
@@ -1095,10 +1288,14 @@ fn make(name: &str, excl: &Excl) -> Option<Box<dyn Pool>> {
                 "high_performance" => LockFreePoolConfig::high_performance(),
                 "tiny" => LockFreePoolConfig { memory_size: 4096, ..LockFreePoolConfig::compact() },
                 "small64k" => LockFreePoolConfig { memory_size: 65536, ..LockFreePoolConfig::default() },
+                // scrub-on-free, with and without the SIMD path
+                "zero_simd" => LockFreePoolConfig { memory_size: 1 << 20, zero_on_free: true, enable_simd_optimization: true, ..LockFreePoolConfig::default() },
+                "zero_nosimd" => LockFreePoolConfig { zero_on_free: true, enable_simd_optimization: false, ..LockFreePoolConfig::compact() },
+                "zero_small64k" => LockFreePoolConfig { memory_size: 65536, zero_on_free: true, enable_simd_optimization: true, ..LockFreePoolConfig::high_performance() },
                 _ => return None,
             };
             let mem_size = cfg.memory_size;
-            Box::new(LockFree { pool: LockFreeMemoryPool::new(cfg).ok()?, mem_size, excl, foreign: Box::new([0; 16]), last: None })
+            Box::new(LockFree { pool: Arc::new(LockFreeMemoryPool::new(cfg).ok()?), k: 0, mem_size, excl, foreign: Box::new([0; 16]), last: None })
         }
         "tlpool" => {
             let cfg = match var {
@@ -1118,6 +1315,7 @@ fn make(name: &str, excl: &Excl) -> Option<Box<dyn Pool>> {
                 "realtime" => FixedCapacityPoolConfig::realtime(),
                 "secure" => FixedCapacityPoolConfig::secure(),
                 "tiny" => FixedCapacityPoolConfig { max_block_size: 128, total_blocks: 6, ..FixedCapacityPoolConfig::default() },
+                "lazy" => FixedCapacityPoolConfig { max_block_size: 200, total_blocks: 12, eager_allocation: false, secure_clear: true, ..FixedCapacityPoolConfig::default() },
                 _ => return None,
             };
             let (align, maxb) = (cfg.alignment, cfg.max_block_size);
@@ -1150,14 +1348,16 @@ fn make(name: &str, excl: &Excl) -> Option<Box<dyn Pool>> {
                 "no_small" => cfg.enable_small_pools = false,
                 "no_medium" => cfg.enable_medium_pools = false,
                 "no_mmap" => cfg.enable_mmap_large = false,
+                "global" => {}
                 _ => return None,
             }
-            Box::new(Tiered { a: TieredMemoryAllocator::new(cfg.clone()).ok()?, cfg })
+            Box::new(Tiered { a: TieredMemoryAllocator::new(cfg.clone()).ok()?, cfg, global: var == "global" })
         }
         "bump" => match var {
-            "4k" => Box::new(Bump { a: Box::new(BumpAllocator::new(4096).ok()?), slice: false }),
-            "1m" => Box::new(Bump { a: Box::new(BumpAllocator::new(1 << 20).ok()?), slice: false }),
-            "slice" => Box::new(Bump { a: Box::new(BumpAllocator::new(8192).ok()?), slice: true }),
+            "4k" => Box::new(Bump { a: Box::new(BumpAllocator::new(4096).ok()?), slice: false, vec: false }),
+            "1m" => Box::new(Bump { a: Box::new(BumpAllocator::new(1 << 20).ok()?), slice: false, vec: false }),
+            "slice" => Box::new(Bump { a: Box::new(BumpAllocator::new(8192).ok()?), slice: true, vec: false }),
+            "vec" => Box::new(Bump { a: Box::new(BumpAllocator::new(8000).ok()?), slice: false, vec: true }),
             _ => return None,
         },
         "arena" => match var {
@@ -1197,6 +1397,19 @@ fn make(name: &str, excl: &Excl) -> Option<Box<dyn Pool>> {
             };
             Box::new(Five { p: FL::Adaptive(p), cfg, excl })
         }
+        "fl_handle" => {
+            let level = match var {
+                "l2" => ConcurrencyLevel::MultiThreadMutex,
+                "l3" => ConcurrencyLevel::MultiThreadLockFree,
+                "l4" => ConcurrencyLevel::ThreadLocal,
+                _ => return None,
+            };
+            let cfg = fl_config("memory_optimized")?;
+            let p = AdaptiveFiveLevelPool::with_level(cfg.clone(), level).ok()?;
+            let h = p.get_handle().ok()?;
+            Box::new(Five { p: FL::Handle(p, h), cfg, excl })
+        }
+        "cachevec" => Box::new(CacheVec),
         "mmap" => match var {
             "default" => Box::new(Mmap { a: MemoryMappedAllocator::default(), min: 16 * 1024 }),
             "min4k" => Box::new(Mmap { a: MemoryMappedAllocator::new(4096), min: 4096 }),
@@ -1233,6 +1446,7 @@ struct Run {
     buf: Option<Vec<Value>>, // Some: buffered (written only when the history is selected)
     issued: usize,
     scopes: Vec<usize>,      // arena scopes: number of live blocks when the scope began
+    extent: Option<(u64, u64)>, // lowest address / highest end address of all blocks handed out in this run
     c: Counts,
 }
 
@@ -1242,7 +1456,7 @@ fn clamp(x: u64) -> u64 {
 
 impl Run {
     fn new(pool: Box<dyn Pool>, buffered: bool) -> Run {
-        Run { pool: Some(pool), live: vec![], next_id: 1, last_freed: None, dead: false, buf: if buffered { Some(vec![]) } else { None }, issued: 0, scopes: vec![], c: Counts::default() }
+        Run { pool: Some(pool), live: vec![], next_id: 1, last_freed: None, dead: false, buf: if buffered { Some(vec![]) } else { None }, issued: 0, scopes: vec![], extent: None, c: Counts::default() }
     }
     fn emit(&mut self, v: Value) {
         self.c.events += 1;
@@ -1275,7 +1489,6 @@ impl Run {
         self.issued = self.issued.saturating_add(cost);
         let id = self.next_id;
         self.next_id += 1;
-        let huge = req as u64 > I32MAX;
         let cap = self.pool().cap();
         let p = self.pool.as_mut().unwrap();
         match guard(|| p.alloc(req, align)) {
@@ -1288,30 +1501,91 @@ impl Run {
                 self.emit(json!({"op":"alloc","t":0,"b":id,"req":clamp(req as u64),"align":align,"ok":false}));
                 None
             }
-            Ok(Some(mut b)) => {
-                self.c.alloc_ok += 1;
-                b.req = want;
-                let reg = match b.reg {
-                    Some((lo, hi)) => json!([[lo, hi]]),
-                    None => json!([]),
-                };
-                let capj = match cap {
-                    Some(c) => json!([clamp(c)]),
-                    None => json!([]),
-                };
-                let len = if huge { I32MAX } else { clamp(b.len) };
-                self.emit(json!({"op":"alloc","t":0,"b":id,"req":clamp(req as u64),"align":b.align,"ok":true,"len":len,
-                    "mis":b.addr % b.align,"lo":b.addr,"hi":b.addr.saturating_add(if huge { I32MAX } else { b.len }),"reg":reg,"cap":capj,"huge":huge}));
-                if fill && !huge {
-                    let p = self.pool.as_mut().unwrap();
-                    if let Err(msg) = guard(|| p.fill(&mut b, id)) {
-                        self.live.push((id, b));
-                        self.panic("fill", id, req as u64, msg);
-                        return Some(id);
+            Ok(Some(b)) => {
+                self.admit(id, want, req, b, cap, fill, "alloc");
+                Some(id)
+            }
+        }
+    }
+    /// log a block the pool handed out, write its pattern, remember it as live
+    fn admit(&mut self, id: u32, want: usize, req: usize, mut b: Blk, cap: Option<u64>, fill: bool, via: &str) {
+        let huge = req as u64 > I32MAX;
+        self.c.alloc_ok += 1;
+        b.req = want;
+        let reg = match b.reg {
+            Some((lo, hi)) => json!([[lo, hi]]),
+            None => json!([]),
+        };
+        let capj = match cap {
+            Some(c) => json!([clamp(c)]),
+            None => json!([]),
+        };
+        let len = if huge { I32MAX } else { clamp(b.len) };
+        let end = b.addr.saturating_add(if huge { I32MAX } else { b.len });
+        let ext = match self.extent {
+            Some((lo, hi)) => (lo.min(b.addr), hi.max(end)),
+            None => (b.addr, end),
+        };
+        self.extent = Some(ext);
+        let span = if self.pool().arena() { json!([clamp(ext.1 - ext.0)]) } else { json!([]) };
+        self.emit(json!({"op":"alloc","t":0,"b":id,"req":clamp(req as u64),"align":b.align,"ok":true,"len":len,"via":via,"span":span,
+            "mis":b.addr % b.align,"lo":b.addr,"hi":b.addr.saturating_add(if huge { I32MAX } else { b.len }),"reg":reg,"cap":capj,"huge":huge}));
+        if fill && !huge {
+            let p = self.pool.as_mut().unwrap();
+            if let Err(msg) = guard(|| p.fill(&mut b, id)) {
+                self.live.push((id, b));
+                self.panic("fill", id, req as u64, msg);
+                return;
+            }
+        }
+        self.live.push((id, b));
+    }
+    /// the pool's bulk entry point: one alloc event per block handed out (same contract action)
+    fn alloc_bulk(&mut self, wants: &[usize]) -> bool {
+        if self.dead || wants.is_empty() {
+            return false;
+        }
+        let wants: Vec<usize> = wants.iter().map(|&w| self.pool().snap(w)).collect();
+        let reqs: Vec<usize> = wants.iter().map(|&w| self.pool().req(w)).collect();
+        let cost: usize = reqs.iter().map(|r| r.saturating_add(63) & !63).sum();
+        if let Some(b) = self.pool().budget() {
+            if self.issued.saturating_add(cost) > b {
+                return false;
+            }
+        }
+        let cap = self.pool().cap();
+        let p = self.pool.as_mut().unwrap();
+        match guard(|| p.alloc_bulk(&reqs)) {
+            Err(msg) => {
+                self.panic("alloc_bulk", self.next_id, reqs[0] as u64, msg);
+                true
+            }
+            Ok(None) => false,
+            Ok(Some(None)) => {
+                self.issued = self.issued.saturating_add(cost);
+                let id = self.next_id;
+                self.next_id += 1;
+                self.c.refused += 1;
+                self.emit(json!({"op":"alloc","t":0,"b":id,"req":clamp(reqs[0] as u64),"align":8,"ok":false,"via":"bulk"}));
+                true
+            }
+            Ok(Some(Some(blocks))) => {
+                self.issued = self.issued.saturating_add(cost);
+                let n = blocks.len();
+                for (i, b) in blocks.into_iter().enumerate() {
+                    let id = self.next_id;
+                    self.next_id += 1;
+                    let (w, r) = (wants.get(i).copied().unwrap_or(0), reqs.get(i).copied().unwrap_or(0));
+                    self.admit(id, w, r, b, cap, true, "bulk");
+                    if self.dead {
+                        break;
                     }
                 }
-                self.live.push((id, b));
-                Some(id)
+                if n != reqs.len() {
+                    // a bulk call hands out exactly what was asked for, or fails: anything else has no contract action
+                    self.panic("alloc_bulk", self.next_id, reqs[0] as u64, format!("bulk call returned {n} blocks for {} requests", reqs.len()));
+                }
+                true
             }
         }
     }
@@ -1491,10 +1765,13 @@ fn pick_size(rng: &mut Rng, pool: &dyn Pool) -> usize {
     match rng.below(100) {
         0..=69 => {
             let c = *rng.pick(&cl);
-            match rng.below(3) {
-                0 => c.saturating_sub(1).max(1),
-                1 => c,
-                _ => c + 1,
+            match rng.below(8) {
+                0 | 1 => c.saturating_sub(1).max(1),
+                2 | 3 => c,
+                4 | 5 => c + 1,
+                // further from the boundary: sizes that are no multiple of 8 / 16 / 32 / 64 on both sides
+                6 => c.saturating_sub(*rng.pick(&[3, 7, 9, 15, 17, 31, 33, 63])).max(1),
+                _ => c + *rng.pick(&[3, 7, 9, 15, 17, 31, 33, 63]),
             }
         }
         70..=79 => mn,
@@ -1505,7 +1782,58 @@ fn pick_size(rng: &mut Rng, pool: &dyn Pool) -> usize {
     }
 }
 
+/// rounds of: k equal blocks in a row (address neighbours in every bump / arena / chunk carving pool),
+/// every other one given back, the rest re-read, the gaps refilled, everything given back
+fn drive_adjacent(run: &mut Run, rng: &mut Rng, rounds: usize) {
+    let aligns = run.pool().aligns();
+    let has_free = run.pool().has_free();
+    for _ in 0..rounds {
+        if run.dead {
+            break;
+        }
+        let size = pick_size(rng, run.pool().as_ref()).min(run.pool().max());
+        let al = *rng.pick(&aligns);
+        let k = (run.pool().max_live().min(8)).max(4);
+        let first = run.live.len();
+        for _ in 0..k {
+            run.alloc(size, al, true);
+        }
+        run.touch();
+        if has_free {
+            // free every other block of the row (from the back, so that indices stay valid)
+            let mut i = run.live.len();
+            while i > first {
+                i -= 1;
+                if (i - first) % 2 == 0 {
+                    run.free_idx(i);
+                    run.touch();
+                }
+            }
+            for _ in 0..k / 2 {
+                run.alloc(size, al, true);
+            }
+            run.touch();
+            while run.live.len() > first && !run.dead {
+                let i = run.live.len() - 1;
+                run.free_idx(i);
+            }
+            run.touch();
+        } else if run.scopes.is_empty() {
+            run.reset_all();
+        } else {
+            run.scope(false);
+            run.scope(true);
+        }
+    }
+}
+
 fn drive_run(run: &mut Run, rng: &mut Rng, regime: &str, steps: usize) {
+    if regime == "adjacent" {
+        if !run.pool().has_free() {
+            run.scope(true);
+        }
+        return drive_adjacent(run, rng, steps);
+    }
     let max_live = run.pool().max_live();
     let aligns = run.pool().aligns();
     let has_free = run.pool().has_free();
@@ -1543,7 +1871,14 @@ fn drive_run(run: &mut Run, rng: &mut Rng, regime: &str, steps: usize) {
                 _ => pick_size(rng, run.pool().as_ref()),
             };
             let before = run.c.refused;
-            run.alloc(size, *rng.pick(&aligns), true);
+            let n = 2 + rng.below(3) as usize;
+            let bulk = rng.chance(1, 6) && nlive + n <= max_live.max(5) && {
+                let sizes: Vec<usize> = (0..n).map(|i| if i == 0 { size } else { pick_size(rng, run.pool().as_ref()).min(run.pool().max()) }).collect();
+                run.alloc_bulk(&sizes)
+            };
+            if !bulk {
+                run.alloc(size, *rng.pick(&aligns), true);
+            }
             if run.c.refused > before && regime == "exhaust" && step > 4 {
                 exhausted = true;
             }
@@ -1595,9 +1930,9 @@ fn drive_run(run: &mut Run, rng: &mut Rng, regime: &str, steps: usize) {
 fn child_drive(a: &Args, name: &str, excl: &Excl) -> Value {
     let rng0 = Rng::new(a.seed).derive(name);
     let regimes: Vec<(&str, usize, usize)> = if a.thorough() {
-        vec![("mixed", 120, 40), ("churn", 120, 30), ("exhaust", 260, 6)]
+        vec![("mixed", 120, 40), ("churn", 120, 30), ("exhaust", 260, 6), ("adjacent", 10, 20)]
     } else {
-        vec![("mixed", 50, 3), ("churn", 50, 3), ("exhaust", 120, 1)]
+        vec![("mixed", 50, 3), ("churn", 50, 2), ("exhaust", 120, 1), ("adjacent", 5, 2)]
     };
     let mut tot = Counts::default();
     let mut runs = 0usize;
@@ -2022,7 +2357,7 @@ fn emit_traces(a: &Args, jobs: &[Job], stem: &str) -> Value {
     // so that a KF-mode re-validation stays small
     let group_of = |j: &Job| -> String {
         let f = fam_of(&j.subject);
-        if j.kf > 0 || matches!(f, "secure" | "bump" | "arena") {
+        if j.kf > 0 {
             format!("{}-{}", sanitize(&j.subject), j.kf)
         } else {
             f.to_string()
